@@ -124,3 +124,33 @@ for ST, HANDLE, TG in (
            ("C07.single.stop.spawns-nothing", "n_emitted('spawned') == 0", "C07,C16"),
        ],
        props=("C07", "C16"))
+
+
+# ------------------------------------------------------------------------------------------------
+# (inlined at their call sites, as before; each is also a unit of its own)
+# The rest of the two TaskGroup classes (C16: the same interface on both workers; C07 "the
+# connection's handler finishes ... as soon as its applications return": leaving the group waits
+# for every task it started and for nothing else).
+ATGC, TTGC = "hypercorn.asyncio.task_group:TaskGroup", "hypercorn.trio.task_group:TaskGroup"
+FUNC = "callable{record:func_calls;coro:1}"
+fn(ATGC + ".__init__", params={"loop": "opaque"}, inline=True,
+   ensures=[("C16.TaskGroup.init", "same(self._loop, loop) and trace_any('created', 'c', same(c, self._task_group))", "C16")], props=("C16",))
+fn(TTGC + ".__init__", params={}, inline=True,
+   ensures=[("C16.TaskGroup.init", "self._nursery is None and self._nursery_manager is None", "C16")], props=("C16",))
+for TG in (ATGC, TTGC):
+    # spawn(func, *args): exactly one task, running func(*args), in this group
+    fn(TG + ".spawn", params={"func": FUNC, "args": "args"}, effect="atomic", inline=True,
+       requires=[("spawn.pre.entered", "True" if "asyncio" in TG else "self._nursery is not None")],
+       ensures=[("C16.spawn.one-task", "n_emitted('spawned') == 1 and runs_action(emitted('spawned')[0], func)", "C16,C07")],
+       props=("C16", "C07"))
+    fn(TG + ".__aenter__", params={}, returns=None, inline=True,
+       ensures=[("C16.TaskGroup.enter", "same(result, self)" + ("" if "asyncio" in TG else " and self._nursery is not None and self._nursery_manager is not None"), "C16")],
+       props=("C16",))
+    # leaving the group joins the underlying task group / nursery exactly once (that join is what
+    # waits for the applications and the keep-alive timer of the connection)
+    fn(TG + ".__aexit__", params={"exc_type": "opaque", "exc_value": "opaque", "tb": "opaque"}, inline=True,
+       model_opts={} if "asyncio" in TG else {"ends_sharing": {"TaskGroup.rely.entered-stays": "__aexit__ has joined the nursery: every task that used the group has finished when the manager is dropped"}},
+       requires=[("aexit.pre.entered", "True" if "asyncio" in TG else "self._nursery_manager is not None")],
+       raises={"BaseExceptionGroup": None},
+       ensures=[("C16.TaskGroup.exit-joins", "n_emitted('joined') == 1", "C16,C07")],
+       props=("C16", "C07"))
